@@ -5,14 +5,16 @@
 (* Also the S->I behaviour generator (EmitCase).                            *)
 EXTENDS Xfr, Json, IOUtils
 
-CONSTANTS RecU,        \* record universe (ids)
+CONSTANTS RecU,        \* record universe (base ids: owner, type, RDATA)
+          TtlU,        \* TTL indexes an RRset may carry
+          Styles,      \* subset of {"rfc", "lib", "stamped"}: how the sender words a difference sequence
           MaxC,        \* max records per zone version
           Kinds,       \* subset of {"axfr","ixfr1","ixfr2","fallback","uptodate"}
           MaxMsgs,     \* max messages per packaging
           FaultKinds,  \* subset of {"none","drop","dup","swap","trunc","hdr","wrongq","csoa"}
           LaterQ       \* subset of BOOLEAN: later messages repeat the question?
 
-VARIABLES sc,      \* scenario: [kind, req, hist] (sender side), receiver starts at hist[1]
+VARIABLES sc,      \* scenario: [kind, req, hist, style] (sender side), receiver starts at hist[1]
           fault,   \* the fault applied, <<"none">> etc.
           msgs,    \* the stream as delivered
           pos,     \* next message to deliver
@@ -24,7 +26,9 @@ vars == <<sc, fault, msgs, pos, rcv, steps, phase>>
 \* open deviations are handed over by the driver as environment variables
 EnvDev == {d \in DevNames : d \in DOMAIN IOEnv}
 
-Contents == {c \in SUBSET RecU : Cardinality(c) <= MaxC}
+\* a version: at most MaxC records, one TTL per RRset (RFC 2181 5.2)
+Stamped(c) == {{WithTtl(r, f[KeyOf(r)]) : r \in c} : f \in [Keys(c) -> TtlU]}
+Contents == UNION {Stamped(c) : c \in {c \in SUBSET RecU : Cardinality(c) <= MaxC}}
 
 HistOf(kind) ==
   CASE kind = "ixfr2" -> {<<[s |-> 1, c |-> a], [s |-> 2, c |-> b], [s |-> 3, c |-> d]>> :
@@ -34,26 +38,44 @@ HistOf(kind) ==
 
 ReqOf(kind) == IF kind = "axfr" THEN AXFR ELSE IXFR
 Last(h) == h[Len(h)]
-SeqOf(kind, h) ==
+StylesOf(kind) == IF kind \in {"ixfr1", "ixfr2"} THEN Styles ELSE {"rfc"}
+SeqOf(kind, h, st) ==
   CASE kind \in {"axfr", "fallback"} -> AxfrSeq(Last(h).s, Last(h).c)
-    [] kind \in {"ixfr1", "ixfr2"} -> IxfrSeq(h)
+    [] kind \in {"ixfr1", "ixfr2"} -> IxfrSeqS(h, st)
     [] kind = "uptodate" -> UpToDateSeq(Last(h).s)
+
+\* TTLs as zone content
+
+\* how an RRset present in both versions changes when its TTL changes
+ClassOf(a, b, k) ==
+  LET A == {Base(r) : r \in {x \in a.c : KeyOf(x) = k}}
+      B == {Base(r) : r \in {x \in b.c : KeyOf(x) = k}}
+      ta == {TtlOf(r) : r \in {x \in a.c : KeyOf(x) = k}}
+      tb == {TtlOf(r) : r \in {x \in b.c : KeyOf(x) = k}}
+  IN IF A = {} \/ B = {} \/ ta = tb THEN "same"
+     ELSE IF A = B THEN "ttl_only"
+     ELSE IF B \subseteq A THEN "ttl_shrink"
+     ELSE IF A \subseteq B THEN "ttl_grow"
+     ELSE "ttl_replace"
+Classes(h) == {ClassOf(h[i], h[i + 1], k) : i \in 1..(Len(h) - 1), k \in Keys(RecU)} \ {"same"}
 
 \* Sender preconditions:
 \*  - an AXFR-style answer to an IXFR query needs a non-SOA second record (RFC
 \*    1995: otherwise it reads as an empty incremental answer);
 \*  - an IXFR answer whose first message holds only the SOA *is* the "retry
-\*    over TCP"/"up to date" signal, so such packagings are not used.
+\*    over TCP"/"up to date" signal, so such packagings are not used;
+\*  - the "stamped" wording cannot express a change of an RRset's TTL alone.
 PackagingOk(kind, h, C) ==
   /\ kind = "fallback" => Last(h).c # {}
   /\ kind \in {"ixfr1", "ixfr2", "fallback"} => 1 \notin C
 
 Init ==
-  /\ \E kind \in Kinds : \E h \in HistOf(kind) :
-       \E C \in Cuts(Len(SeqOf(kind, h)), MaxMsgs) : \E lq \in LaterQ :
+  /\ \E kind \in Kinds : \E h \in HistOf(kind) : \E st \in StylesOf(kind) :
+       \E C \in Cuts(Len(SeqOf(kind, h, st)), MaxMsgs) : \E lq \in LaterQ :
          /\ PackagingOk(kind, h, C)
-         /\ sc = [kind |-> kind, req |-> ReqOf(kind), hist |-> h]
-         /\ msgs = Package(SeqOf(kind, h), C, ReqOf(kind), lq)
+         /\ st = "stamped" => "ttl_only" \notin Classes(h)
+         /\ sc = [kind |-> kind, req |-> ReqOf(kind), hist |-> h, style |-> st]
+         /\ msgs = Package(SeqOf(kind, h, st), C, ReqOf(kind), lq)
   /\ fault = <<"setup">>
   /\ pos = 1
   /\ rcv = RcvInit(ContentOf(RecU, sc.hist[1].s, sc.hist[1].c))
@@ -139,7 +161,7 @@ DiffsApply(before, pubs, diffs) ==
   IF pubs = <<>> THEN TRUE
   ELSE /\ (diffs[1] # <<>> =>
             LET d == diffs[1][1] IN
-            /\ SortS(BagMinus(before.recs \o before.soa, d.rem) \o d.add) = SortS(Head(pubs).recs \o Head(pubs).soa)
+            /\ SortS(BagMinus(SortS(before.recs \o before.soa), d.rem) \o d.add) = SortS(Head(pubs).recs \o Head(pubs).soa)
             /\ BagMinus(d.rem, SortS(before.recs \o before.soa)) = <<>>)
        /\ (diffs[1] = <<>> => (Head(pubs).recs = before.recs \/ SerialOf(before.soa) >= SerialOf(Head(pubs).soa)))
        /\ DiffsApply(Head(pubs), Tail(pubs), Tail(diffs))
@@ -190,7 +212,8 @@ EmitCase ==
         used == {x \in Dev : Wo(x)!RunStream(Z0, sc.req, msgs) # open}
     IN PrintT("CASE " \o ToJson(
          [in |-> [old |-> [soa |-> sc.hist[1].s, recs |-> SetToSeq(sc.hist[1].c)],
-                  req |-> sc.req, kind |-> sc.kind, fault |-> fault, msgs |-> msgs],
+                  req |-> sc.req, kind |-> sc.kind, style |-> sc.style,
+                  cls |-> SelectSeq(<<"ttl_only", "ttl_shrink", "ttl_grow", "ttl_replace">>, LAMBDA x : x \in Classes(sc.hist)), fault |-> fault, msgs |-> msgs],
           exp |-> JRun(ideal),
           dev |-> IF open = ideal THEN [x \in {} |-> 0] ELSE [x \in used |-> JRun(open)]]))
 =============================================================================
